@@ -45,6 +45,9 @@ def harnesses(tier):
                 opts=['--unwind', '6', '--unwindset', 'log_count.0:26,main.0:4,main.1:10,main.2:4,memcmp.0:140'], timeout=300, mem_gb=6, string_model=True, defines={'STRING_LITERALS_OPAQUE': 1}, inputs=['behav'],
                 note='K abstract key/value expression pairs (return or throw); std::map::insert is a recorder')
     h.need_globals = NEED; hs.append(h)
+    from props import C07
+    e = C07.equation_harness(); e.name = 'R6.Equation(const target refused)'        # a literal handed out by a Constant node is const: every assignment form - =, compound, := - must refuse it, or the tree is edited
+    hs.append(e)
     return hs
 
 ASSUMPTIONS = ['literal values reach Constant nodes through const_var (recorded in the C16 harnesses); their constness protects them (C07)',
